@@ -7,6 +7,7 @@
 #include "nmtools/array/view/mutable_flatten.hpp"
 #include "nmtools/array/view/mutable_ref.hpp"
 #include "nmtools/utility/at.hpp"
+#include "nmtools/array/index/ndindex.hpp"
 #include "nmtools/utility/has_value.hpp"
 #include "proto.hpp"
 #include <array>
@@ -53,6 +54,15 @@ template <typename A> static std::string run_ndarray(const std::vector<Step>& op
         } else if (s.op=="write") {
             uvec idx(s.a.begin(), s.a.end());
             nm::apply_at(a, idx) = (int)s.b.at(0);
+            out += "r=1 " + state(a, nm::len(a.data_));
+        } else if (s.op=="probe") {
+            // write a distinct value at EVERY multi-index (row-major enumeration) through operator(): aliasing or an
+            // out-of-buffer offset shows in the buffer dump
+            auto shp = nm::shape(a); uvec sh; for (size_t i=0;i<(size_t)nm::len(shp);i++) sh.push_back((size_t)nm::at(shp,i));
+            size_t n = 1; for (auto e : sh) n *= e;
+            for (size_t k=0;k<(size_t)nm::len(a.data_);k++) a.data_[k] = -1;
+            auto nd = nm::index::ndindex(sh);
+            for (size_t k=0;k<n;k++) nm::apply_at(a, nd[k]) = (int)(100+k);
             out += "r=1 " + state(a, nm::len(a.data_));
         } else if (s.op=="copy") {
             // copy-construct, mutate the copy, the original must be unaffected; then assign back over a fresh object
